@@ -19,7 +19,7 @@ EXPLANATION = (
     "prefix and length-consistency checks (C03.R2), validate-before-decode (C06.R5), assert_complete (C03.R4)."
 )
 ASSUMPTIONS = ["slicing never raises; dict.get returns None on a miss"]
-FLOORS = {"C17.R1": 14, "C17.R2": 6, "C17.R3": 6, "C17.R4": 10}
+FLOORS = {"C17.R1": 14, "C17.R2": 6, "C17.R3": 6, "C17.R4": 10, "C17.R5": 1, "C17.R6": 1}
 
 
 def run(ctx):
@@ -27,6 +27,11 @@ def run(ctx):
     r2(ctx)
     r3(ctx)
     r4(ctx)
+    from . import c03, c07
+    from .common import reuse
+
+    reuse(ctx, "C17.R5", [c07.r2, c07.r3], "after malformed input the reset really re-establishes the connection: reset = disconnect + reconnect, every unsuccessful attempt is retried (C07.R2, C07.R3)")
+    reuse(ctx, "C17.R6", [c03.r6], "wrappers hand the sub-decoder the rest of the frame and account for the announced sub-lengths, so bytes beyond the declared lengths make the frame incomplete (rejected) instead of being dropped silently (C03.R6)")
 
 
 def poly(e: ast.expr) -> dict:
